@@ -30,9 +30,9 @@ DEADLOCK_TEXT = "concurrent remote_exec would cause deadlock for main_thread_onl
 def shards(tier, seed):
     out = []
     for sp in ("popen", "python", "via", "popen", "python", "via"):
-        out.append({"kind": "real", "spec": sp, "runs": 3 if tier == "quick" else 60})
+        out.append({"kind": "real", "spec": sp, "runs": 3 if tier == "quick" else 150})
     for i in range(4 if tier == "quick" else 8):
-        out.append({"kind": "inproc", "mode": ("sync", "noise", "pct", "sync")[i % 4], "runs": 12 if tier == "quick" else 300})
+        out.append({"kind": "inproc", "mode": ("sync", "noise", "pct", "sync")[i % 4], "runs": 12 if tier == "quick" else 800})
     nsw = 4 if tier == "quick" else 8
     for i in range(nsw):
         out.append({"kind": "sweep", "part": i, "parts": nsw, "ks": [1, 2] if tier == "quick" else [1, 2, 3, 4]})
